@@ -78,6 +78,13 @@ CHECKS.update({
    note="VM only (its closure and heap storages are the counters the property names). Growth is detected as inequality at N/2N/3N, so a leak slower than one object per N samples within 3N samples is not seen.",
    design="4/C12"),
 })
+CHECKS.update({
+ "C16": dict(
+   technique="bounded-exhaustive enumeration of (program, single transformation) pairs: every identifier x every adversarial name, every expression node x {1,2,21} parentheses, layout/comment variants, every agreeing annotation; differential execution base vs transformed (shape E)",
+   text="For every program of the families below the bound, every deviation-1 renaming, parenthesisation, layout/comment change and agreeing type annotation is applied by the harness to its own AST or printed text; base and transformed program must agree on accept/reject and produce bit-identical outputs on the VM (every 16th case also on WASM).",
+   note="Transformations are the harness's own; two simultaneous transformations are not explored. Annotations are added only where the builder knows the type is float.",
+   design="4/C16"),
+})
 NOT_YET = {}
 
 def main():
